@@ -469,6 +469,10 @@ class Interp:
 
 
 def run_case(case):
+    if case['kind'] == 'server':
+        # a PortServer (MultiPort over accepted socket ports): blocking receive with a message waiting in a sub-port
+        from checks import c18_sockets as C18
+        return C18.run_case(case)
     it = Interp(case['kind'], case.get('autoreset', False))
     for op in case['ops']:
         it.step(op)
@@ -482,6 +486,8 @@ def run_case(case):
 
 
 def nontrivial(case):
+    if case['kind'] == 'server':
+        return True
     it = Interp(case['kind'], case.get('autoreset', False))
     for op in case['ops']:
         it.step(op)
@@ -578,14 +584,15 @@ def enum_selfclose(rec, shard):
     for n in range(0, 4):
         for pos in range(0, n + 1):
             for pre in range(0, n + 1):         # how many arrivals are polled into the queue before draining
-                for drain in ('iterate', 'receive', 'poll', 'iter_pending'):
+                for drain, prepoll in [(d, q) for d in ('iterate', 'receive', 'poll', 'iter_pending')
+                                       for q in ((False, True) if pre else (False,))]:
                     ops = []
                     items = [['arrive', 0, msg_bytes(i)] for i in range(n)]
                     items.insert(pos, ['eof'])
                     now, later = items[:pre + 1], items[pre + 1:]
                     ops += now
-                    if pre:
-                        ops.append(['poll'])
+                    if prepoll:
+                        ops.append(['poll'])        # some of it is taken into the queue before the drain starts
                     ops.append(['script', later])
                     if drain == 'iterate':
                         ops.append(['iterate'])
@@ -607,6 +614,10 @@ def enum_failing_reset(rec, shard):
 
 
 def main(ctx):
+    from checks import c18_sockets as C18
+    for case in C18.server_cases(ctx.tier):
+        if case.get('late_send') and case['drain'] == 'receive':
+            ctx.check(case, classes=('portserver-blocking-receive',), sample=False)
     ctx.pmap('enum_failing_reset', [0])
     ctx.pmap('enum_selfclose', [False, True])
     n = 500 if ctx.tier == 'quick' else 6000
